@@ -554,6 +554,12 @@ func checkD2(c *Ctx, pr *prioRoles) {
 							}
 						}
 					}
+					if df := p.delegatedFilter(st, field); df != nil && df.sameField {
+						if _, path, okp := df.source.FieldPath(); okp && path[len(path)-1] == "priorities" {
+							okForm = true
+							what = "filter of priorities delegated to " + shortFn(p, df.helper)
+						}
+					}
 					c.R.Check(okForm, "D2", key, p.InstrPos(in), what, "field "+field+" is rebuilt by "+what+": not an order-preserving filter of the registered list, so the divider may see an unsorted or duplicated list")
 				}
 			}
@@ -571,6 +577,8 @@ func checkD2(c *Ctx, pr *prioRoles) {
 					}
 					if _, isSl := st.Val.(*ssa.Slice); isSl {
 						trunc = in
+					} else if df := p.delegatedFilter(st, field); df != nil && df.sameField && df.truncated {
+						// the delegated filter starts from list[:0] itself
 					} else {
 						app = in
 					}
